@@ -4,8 +4,8 @@ from hist import *
 import itertools
 
 RULE = ("histories over <= 3 live trees: exhaustive up to the tier's length over the alphabet {NewRoot, Add x 2 names on any "
-        "earlier handle, Output, Walk}, random up to length 60 (text/JSON/YAML output, walk, iterator walk, From-Markdown "
-        "calls in between), and the same histories run concurrently in 2-4 goroutines. Predicate (model-free): every "
+        "earlier handle, Output, Walk}, random up to length 60 (text/JSON/YAML output, walk, iterator walk consumed at once or "
+        "obtained first and ranged over after further Adds and calls, From-Markdown calls in between), and the same histories run concurrently in 2-4 goroutines. Predicate (model-free): every "
         "operation's result equals the result of the same operation on a copy of the same tree built in pre-order in a "
         "fresh process. non-trivial = history with an operation after >= 2 Adds that follow an earlier operation")
 
@@ -14,8 +14,21 @@ def random_history(rng, maxlen, names, ops_kinds):
     pt = PyTree()
     ops, checks = [], []    # checks: (op index, root items, op text with handle placeholder)
     n = rng.randint(3, maxlen)
+    pending = []            # iterators obtained (Ic) and not yet consumed: (key, handle, branch strings)
+
+    def range_over(key, h, bf):
+        # the sequence is computed when it is ranged over: the result is that of an iterator walk of the tree as it is NOW
+        checks.append((len(ops), pt.items(pt.handles[h][0]), "I,%%d,%s,-" % bf_csv(bf)))
+        ops.append("Ir,%d,-" % key)
+
     for _ in range(n):
         r = rng.random()
+        if pending and r > 0.9:
+            key, h, bf = rng.choice(pending)
+            if rng.random() < 0.7:
+                pending.remove((key, h, bf))
+            range_over(key, h, bf)
+            continue
         if not pt.handles or (r < 0.08 and len(pt.roots) < 3):
             nm = rng.choice(names)
             pt.new_root(nm)
@@ -43,6 +56,12 @@ def random_history(rng, maxlen, names, ops_kinds):
                 tmpl = "O,%%d,%s,0,%s,-" % (rng.choice("djy"), bf_csv(bf))
             elif k == "W":
                 tmpl = "W,%%d,%s,-" % bf_csv(bf)
+            elif k == "I" and rng.random() < 0.4:
+                # obtain the iterator now, consume it after further Adds / calls with other options
+                key = sum(1 for o in ops if o.startswith("Ic"))
+                ops.append("Ic,%d,%d,%s" % (key, h, bf_csv(bf)))
+                pending.append((key, h, bf))
+                continue
             elif k == "I":
                 tmpl = "I,%%d,%s,-" % bf_csv(bf)
             else:
@@ -51,6 +70,8 @@ def random_history(rng, maxlen, names, ops_kinds):
                 continue
             checks.append((len(ops), pt.items(ri), tmpl))
             ops.append(tmpl % h)
+    for key, h, bf in pending:
+        range_over(key, h, bf)
     return ops, checks
 
 
